@@ -82,6 +82,12 @@ def run_shard(desc):
             for orient in (0, 2 ** b - 1, 1):
                 nl = cm.build_netlist(topo, kt, orient, 0, sp.LABELS_PLAIN[:n], "eq", sp.IDS_ASC[:b])
                 explore(nl, [], depth, res, seen)
+            # almost-open and almost-short elements, almost-dead sources (structural judgement only), both listing parities
+            for orient in (0, 2 ** b - 1):
+                nl = cm.build_netlist(topo, kt, orient, n - 1, sp.LABELS_ODD[:n], "xt", sp.IDS_ASC[:b])
+                explore(nl, [], depth, res, seen)
+                nl = cm.build_netlist(tuple(reversed(topo)), tuple(reversed(kt)), orient, 0, sp.LABELS_PLAIN[:n], "xt", sp.IDS_ASC[:b])
+                explore(nl, [], depth, res, seen)
     return res
 
 
@@ -307,7 +313,20 @@ def fport(nl, a, b_):
     return complex(z)
 
 
+def extreme_values(nl):
+    """values so small or large that float analysis cannot compare two networks to 1e-9: judged structurally only"""
+    for b in nl["branches"]:
+        for x in b[4]:
+            m = abs(rn.c(x))
+            if m and (m < 1e-6 or m > 1e6):
+                return True
+    return False
+
+
 def check_solution_equiv(res, case, before, got, node_map):
+    if extreme_values(before):
+        bump(res["skipped"], "equivalence:extreme_values_judged_structurally_only")
+        return
     s0 = fsolve(before)
     if s0 is None:
         bump(res["skipped"], "equivalence:original_ill_posed")
@@ -332,6 +351,9 @@ def check_solution_equiv(res, case, before, got, node_map):
 
 
 def check_port_equiv(res, case, before, got, node_map):
+    if extreme_values(before):
+        bump(res["skipped"], "equivalence:extreme_values_judged_structurally_only")
+        return
     bump(res["hits"], "electrical_equivalence:port_impedance")
     nodes = [n for n in rn.nodes_of(before) if node_map.get(n) is not None]
     zs = [abs(complex(z)) for z in (rn.immittance(b)[0] for b in before["branches"]) if z is not None and z]
